@@ -76,7 +76,7 @@ class Ctx:
         return r
 
     # ---- R3: judgement of observations by a trace module -------------------------------------
-    def judge(self, module, observations, cfg=None, env=None, timeout=1200, workers=8):
+    def judge(self, module, observations, cfg=None, env=None, timeout=1200, workers=2):
         v = obsmod.judge(module, observations, cfg=cfg, env=env, timeout=timeout, workers=workers)
         self.traces += v.n
         if v.n:
@@ -164,12 +164,14 @@ def finish(ctx, check_meta):
         with open(path, "w") as fd:
             json.dump({"property": ctx.prop, "sig": vs[0]["sig"], "what": vs[0]["what"], "count": len(vs),
                        "cases": [x["case"] for x in vs[:20]]}, fd, indent=1, default=str)
-        if gi < 40:
+        if gi < 12:
             lines.append("VIOLATION property=%s replay=%s   # %s (%d cases) sig=%s" % (ctx.prop, path, vs[0]["what"][:160], len(vs), k[:200]))
     for fid, (f, vs) in sorted(known_hit.items()):
         print("KNOWN-FINDING: property=%s %s [%s; %d cases this run]" % (ctx.prop, f["what"], fid, len(vs)))
     for ln in lines:
         print(ln)
+    if len(groups) > 12:
+        print("... and %d more violation groups (replay files written under %s)" % (len(groups) - 12, REPLAY_DIR))
     cov = {
         "samples": ctx.samples[:8] or ["(no sample recorded)"],
         "evaluations": int(ctx.evaluations),
@@ -205,7 +207,7 @@ def finish(ctx, check_meta):
 
 # ---- stages: cases -> observations on the real code -> TLC judgement ----------------------------
 def run_stage(ctx, name, cases, fn, module, cfg=None, sig_keys=("label", "form"), nontrivial=None,
-              raise_is_violation=True, judge_workers=8):
+              raise_is_violation=True, judge_workers=2):
     """Run fn(case) -> observation dict (or list of dicts) for every case in a process pool, have the
     TLA+ trace module judge every observation, and turn rejections into violations."""
     cases = list(cases)
